@@ -271,7 +271,20 @@ pub fn cache_async(attr: TokenStream, item: TokenStream) -> TokenStream {
 
     // Detect Result type and extract inner type if needed
     let (is_result, _cache_value_type) = {
-        let s = quote!(#ret_type).to_string().replace(' ', "");
+        // look through redundant parentheses and the invisible group a `macro_rules!` type
+        // fragment arrives in: `-> (Result<T, E>)` returns a Result too
+        let mut ty = match &sig.output {
+            syn::ReturnType::Type(_, ty) => Some(&**ty),
+            syn::ReturnType::Default => None,
+        };
+        while let Some(syn::Type::Paren(syn::TypeParen { elem, .. }))
+        | Some(syn::Type::Group(syn::TypeGroup { elem, .. })) = ty
+        {
+            ty = Some(&**elem);
+        }
+        let s = ty
+            .map(|t| quote!(#t).to_string().replace(' ', ""))
+            .unwrap_or_default();
         if s.starts_with("Result<") || s.starts_with("std::result::Result<") {
             // Extract the Ok type from Result<T, E>
             // For simplicity, we'll use the full return type and let the compiler infer
